@@ -672,8 +672,11 @@ def _super(ex, st, self_v, args, kwargs, node):
 @stub("io.BytesIO", "_io.BytesIO")
 def _bytesio(ex, st, self_v, args, kwargs, node):
     if args:
-        # BytesIO(initial): position 0 -- a later write would overwrite, tell() is 0: outside the append-only model
-        raise Unsupported("io.BytesIO(initial_bytes): position-0 semantics are outside the append-only model")
+        d = args[0]
+        if not isinstance(d, SStr) or d.is_str:
+            raise Unsupported("io.BytesIO(%r)" % (d,))
+        # BytesIO(initial): the stream position is 0 (tell() == 0, a write overwrites from the start)
+        return R1(ex, st, st.alloc(HBio(d, pos=iv(0))))
     return R1(ex, st, st.alloc(HBio()))
 
 
@@ -684,6 +687,18 @@ def _bio_write(ex, st, self_v, args, kwargs, node):
     if not isinstance(d, SStr) or d.is_str:
         return [ex.res_exc(st, SExc(TypeError))]
     cur = o.content
+    if o.pos is not None:
+        if entails(st.pc, o.pos == cur.length(), 2000):
+            o.pos = None
+        elif const_int(o.pos) == 0:
+            # overwrite from position 0: new content = d ++ content[len(d):]
+            tail = strops.slice_str(cur, d.length(), None) if cur.atoms else cur
+            keep = entails(st.pc, d.length() >= cur.length(), 2000)
+            o.content = d if keep else concat(d, tail)
+            o.pos = None if keep else d.length()
+            return R1(ex, st, SInt(d.length()))
+        else:
+            raise Unsupported("BytesIO.write at a position inside the buffer")
     if not cur.atoms:
         o.content = d
     elif not d.atoms:
@@ -709,8 +724,10 @@ def _bio_getvalue(ex, st, self_v, args, kwargs, node):
 
 @stub("BytesIO.tell")
 def _bio_tell(ex, st, self_v, args, kwargs, node):
-    # append-only use: position == length (after a write or seek(0, END))
-    return R1(ex, st, SInt(st.obj(self_v).content.length()))
+    o = st.obj(self_v)
+    if o.pos is not None:
+        return R1(ex, st, SInt(o.pos))
+    return R1(ex, st, SInt(o.content.length()))
 
 
 @stub("BytesIO.seek")
@@ -718,6 +735,7 @@ def _bio_seek(ex, st, self_v, args, kwargs, node):
     off = const_int(args[0].t)
     wh = const_int(args[1].t) if len(args) > 1 else 0
     if off == 0 and wh == 2:
+        st.obj(self_v).pos = None
         return R1(ex, st, SInt(st.obj(self_v).content.length()))
     raise Unsupported("BytesIO.seek other than seek(0, SEEK_END)")
 
